@@ -816,6 +816,18 @@ theorem loops_above_cache_merges :
   rintro ⟨hl, _⟩
   simp at hl
 
+/-- a call with an unhashable argument (ndarray, pandas: finding K5) inside a history through a stack: in ANY state
+of the cache the plain function is executed exactly once, the reply is what `f` returns, and the cache is left as it
+was — so such calls are re-evaluated every time but never disturb the other calls -/
+theorem stack_cache_unhashable_call (s : Sig) (body : PDict → Res Val) (unh : Call → Bool) (p : PDict)
+    (above below : List (Cls × PDict)) (ha : noCache above) (hb : noCache below) (st : HSt) (c : Call) (v : Val)
+    (h : ValidCall s body c v) (hu : unh (reach s above c) = true) :
+    let r := evalH s body unh (above ++ (Cls.cache, p) :: below) st c
+    r.2 = applyFn s body c ∧ r.1.cache = st.cache ∧ r.1.evals.length = st.evals.length + 1 := by
+  intro r
+  have := evalH_through_unh s body unh p below hb above st c v ha h hu
+  refine ⟨by rw [show r = _ from this, h.ok], by rw [show r = _ from this], by rw [show r = _ from this]; simp⟩
+
 /-- **the first call of a history is the single-call model**: on an empty cache the stack returns what `evalChain`
 returns — for every stack and every call, valid or not, raising or not -/
 theorem stack_history_first_call (s : Sig) (body : PDict → Res Val) (unh : Call → Bool)
